@@ -656,3 +656,61 @@ func getterOrigin(v ssa.Value, depth int) (*ssa.Function, ssa.Value) {
 	}
 	return nil, nil
 }
+
+// rulesC04dup: dropping a mutation as a duplicate is decided by what is LAST
+// in the queue for those states.
+func (c *Ctx) rulesC04dup() {
+	c.rule("C04.dup", "the only place that drops a mutation instead of queueing it (queueMutation's duplicate shortcut, which reports Executed) never takes its verdict from \"an identical mutation is queued ANYWHERE\" (IsQueued with PositionAny, or a forward scan returning at the first match): a counter mutation queued after the match makes the new mutation necessary — [Add X, Remove X] + Add X must end with X active. The scan must start from the queue's end")
+	qm := c.fn(pm + ":Machine.queueMutation")
+	dd := c.fnOpt(pm + ":Machine.detectQueueDuplicates")
+	if qm == nil {
+		return
+	}
+	_, posAny, okAny := c.constVal(pm, "PositionAny")
+	// every function the duplicate verdict can come from: detectQueueDuplicates, or queueMutation itself
+	fns := []*ssa.Function{qm}
+	if dd != nil {
+		fns = append(fns, dd)
+	}
+	n := 0
+	for _, f := range fns {
+		for i, s := range c.sitesIn(f, pm+":Machine.IsQueued") {
+			n++
+			args := s.Common().Args
+			k, isK := constInt(args[len(args)-1])
+			bad := okAny && isK && k == posAny
+			// is the call's `found` result used for a verdict (returned / branched on)?
+			c.check(!bad, "C04.dup", fmt.Sprintf("%s: IsQueued#%d is not asked for a match anywhere in the queue", funcKey(f), i+1), s.Pos(),
+				"the duplicate verdict comes from IsQueued(…, PositionAny): a counter mutation queued after the match is ignored and the new mutation is dropped")
+		}
+		// a hand-written scan over Machine.queue must run from the end: a range loop over the queue that can return true is a forward first-match scan
+		fQ := c.field(pm, "Machine", "queue")
+		if fQ == nil || f != dd {
+			continue
+		}
+		for _, b := range f.Blocks {
+			for _, ins := range b.Instrs {
+				ia, ok := ins.(*ssa.IndexAddr)
+				if !ok || loadOfField(ia.X) != fQ {
+					continue
+				}
+				n++
+				fwd := false
+				if bo, ok := ia.Index.(*ssa.BinOp); ok {
+					if ph, ok := bo.X.(*ssa.Phi); ok && ph.Comment == "rangeindex" {
+						fwd = true
+					}
+				}
+				c.check(!fwd, "C04.dup", funcKey(f)+": the duplicate scan walks the queue from its end", ins.Pos(),
+					"a forward range over the queue returning at the first identical mutation ignores what was queued after it")
+			}
+		}
+	}
+	// the shortcut exists and is the only dropper: queueMutation returns the constant Executed only under the duplicate verdict
+	if dd != nil {
+		c.check(len(c.sitesIn(qm, funcKey(dd))) >= 1, "C04.dup", "queueMutation consults detectQueueDuplicates", qm.Pos(), "no call found")
+	}
+	if n < 1 {
+		c.undecided("C04.dup: no queue scan found behind the duplicate shortcut")
+	}
+}
